@@ -316,6 +316,7 @@ let run () =
   let cfg h = { s_handle = n_of_int h; s_writer = front_w (); s_readers = fronts_r (); s_checker = chk ();
                 s_autosync = !autosync; s_systmp = [cs "systmp"] } in
   let par_lines : (int * string) list ref = ref [] in
+  let par_frozen : int list ref = ref [] in
   let rec handle (step, stage_ctr, cur_oracle, stage_tag) line =
        let f = Array.of_list (List.filter (fun s -> s <> "") (String.split_on_char ' ' line)) in
        if Array.length f > 0 && f.(0).[0] <> '#' then
@@ -328,7 +329,8 @@ let run () =
          | "umask" -> umask := int_of_string ("0o" ^ f.(1))
          | "handles" -> nhandles := int_of_string f.(1)
          | "stagetag" -> stage_tag := f.(1)
-         | "par" -> par_lines := []
+         | "par" -> par_lines := []; par_frozen := []
+         | "frozen" -> par_frozen := List.map int_of_string (List.tl (Array.to_list f))
          | "pp" ->
            let i = int_of_string f.(1) in
            let k = String.index_from line (String.index line ' ' + 1) ' ' in
@@ -373,7 +375,7 @@ let run () =
             with Exit -> ());
            (* anything still waiting did not follow the schedule *)
            Mutex.lock pm;
-           Array.iteri (fun i p -> if not p.p_done && !mismatch = None then
+           Array.iteri (fun i p -> if not p.p_done && !mismatch = None && not (List.mem i !par_frozen) then
                            mismatch := Some (Printf.sprintf "schedule exhausted: participant %d still waiting for %s" i p.p_want)) !parts;
            par_abort := true; Condition.broadcast pc; Mutex.unlock pm;
            Array.iter Thread.join ths;
@@ -401,6 +403,7 @@ let run () =
                 | _ -> ())
            done
          | "snap" -> snapshot ()
+         | "budgets" -> pf "BUDGET get=%s touch=%s write=%s\n" (string_of_z (stack_get_budget (cfg 0))) (string_of_z (stack_touch_budget (cfg 0))) (string_of_z (stack_write_budget (cfg 0)))
          | "sleep" -> ()
          | "resetproc" -> step := (if Array.length f > 1 then int_of_string f.(1) else 0); stage_ctr := 0; world := { !world with w_fs = { !world.w_fs with fds = [] }; w_counter = N0; w_loads = [] }
          | "oracle" ->
